@@ -1,1 +1,4 @@
 import Driver.Points
+import Driver.Misc
+import Driver.Server
+import Driver.Main
